@@ -177,7 +177,7 @@ impl<'a> LiveEvents<'a> {
             inject: Vec::with_capacity(2),
             anchors: Vec::with_capacity(8),
             rec_stack: Vec::with_capacity(2),
-            budget: budget.map(|budget| BudgetEnforcer::new(budget, policy)),
+            budget: budget.map(|budget| BudgetEnforcer::new(budget, policy).with_expanded_aliases()),
 
             budget_report,
             budget_report_cb,
@@ -223,7 +223,9 @@ impl<'a> LiveEvents<'a> {
             inject: Vec::with_capacity(2),
             anchors: Vec::with_capacity(8),
             rec_stack: Vec::with_capacity(2),
-            budget: budget.map(|budget| BudgetEnforcer::new(budget, EnforcingPolicy::AllContent)),
+            budget: budget.map(|budget| {
+                BudgetEnforcer::new(budget, EnforcingPolicy::AllContent).with_expanded_aliases()
+            }),
 
             budget_report,
             budget_report_cb,
@@ -476,6 +478,8 @@ impl<'a> LiveEvents<'a> {
                                 anchor: anchor_id,
                                 location,
                             };
+                            // The placeholder is the node delivered at the alias position.
+                            self.observe_budget_for_replay(&ev)?;
                             self.record(&ev, false, false);
                             self.last_location = location;
                             self.produced_any_in_doc = true;
